@@ -674,6 +674,24 @@ func (h *c07H) addX(late func(), step int) {
 	if pending && !h.lockHeld {
 		h.moveMemToFile()
 	}
+	// "every recorded query is returned", all memory sizes: with file logging
+	// on, once the Add (and the flush it started) is over the buffer is not
+	// full (the next Add would overwrite its oldest record), and with
+	// size_memory 0, where memory is never searched, it is empty: the record
+	// has reached the file.
+	if l.conf.FileEnabled && !h.lockHeld && !h.stuck {
+		inMem := 0
+		for _, x := range h.recs {
+			if x.where == 0 {
+				inMem++
+			}
+		}
+		if ms := int(l.conf.MemSize); (ms == 0 && inMem > 0) || (ms > 0 && inMem >= ms) {
+			h.fail("recorded-reaches-file", "record #%d: size_memory %d, file logging on: after Add %d record(s) stay in the memory buffer and no flush was started (flush_spawned=%v): %s",
+				rec.id, ms, inMem, pending,
+				map[bool]string{true: "with size_memory 0 memory is never searched, the record is never returned and the next Add overwrites it", false: "the buffer is full, the next Add overwrites its oldest record"}[ms == 0])
+		}
+	}
 }
 
 func rulelistID(i int) (id rulelist.URLFilterID) { return rulelist.URLFilterID(i) }
@@ -1369,7 +1387,7 @@ func c07IDs(x *c07Rec) (ids []string) {
 func (h *c07H) expected(q c07Query) (ids []int) {
 	for i := len(h.recs) - 1; i >= 0; i-- {
 		x := h.recs[i]
-		if x.where < 0 || (x.where == 0 && h.l.conf.MemSize == 0) {
+		if x.where < 0 || (x.where == 0 && h.l.conf.MemSize == 0 && !h.l.conf.FileEnabled) {
 			continue
 		}
 		if h.l.conf.Ignored.Has(x.host) {
@@ -2020,6 +2038,9 @@ func c07History(t *testing.T, out *vfOut, r *vfRand, nops int, mem uint, fileEna
 		}
 	}
 	h.battery(true)
+	if mem <= 2 && fileEnabled && len(h.recs) >= 3 {
+		h.cls[fmt.Sprintf("mem-size-%d-several-adds", mem)] = true
+	}
 	for _, x := range h.recs {
 		switch x.where {
 		case 0:
@@ -2522,6 +2543,190 @@ func c07ConcurrentAdds(t *testing.T, out *vfOut, r *vfRand) {
 	out.Emit(c)
 }
 
+// c07BigFile: the request-parameter space of the handler x the scan cap.  A
+// querylog.json of nm records of host rareNN.example followed by nn > cap
+// newer records of noise.test is written directly (the lines json.Encoder
+// writes for such entries); requests go through handleQueryLog: offset absent
+// / explicit 0 / positive, limit absent / 0 / huge, older_than absent / empty /
+// garbage.  Monitor: offset pages 0, 10, 20 of search=rare add up to every
+// rare record, newest first; the chain of cursors from the request without
+// offset (whose first page the cap cuts short) does too.  The requests without
+// cursor go to the model (C07.CBig: cap as a parameter, lines abstracted to
+// the two hosts).
+func c07BigFile(t *testing.T, out *vfOut, r *vfRand, nm, nn int) {
+	dir, err := os.MkdirTemp(t.TempDir(), "big")
+	if err != nil {
+		t.Fatal(err)
+	}
+	defer os.RemoveAll(dir)
+	h := c07NewH(t, r, dir)
+	const step = 1000
+	base := (time.Now().Add(-time.Hour).UnixNano() / step) * step
+	const ip = "10.9.9.9"
+	var buf bytes.Buffer
+	enc := json.NewEncoder(&buf)
+	for k := 0; k < nm+nn; k++ {
+		host := "noise.test"
+		if k < nm {
+			host = fmt.Sprintf("rare%02d.example", k)
+		}
+		e := &logEntry{Time: time.Unix(0, base+int64(k)*step), QHost: host, QType: "A", QClass: "IN", Upstream: "u", IP: net.ParseIP(ip)}
+		if err = enc.Encode(e); err != nil {
+			t.Fatal(err)
+		}
+	}
+	if err = os.WriteFile(dir+"/"+queryLogFileName, buf.Bytes(), 0o644); err != nil {
+		t.Fatal(err)
+	}
+	h.newLog(100, true, true)
+	scanCap := newSearchParams().maxFileScanEntries
+	type res struct {
+		code   int
+		ids    []int
+		oldest string
+	}
+	get := func(q c07Query, toModel bool) (x res) {
+		h.nsearch++
+		w := httptest.NewRecorder()
+		rq := httptest.NewRequest("GET", "/control/querylog?"+q.encode(), nil)
+		func() {
+			defer func() {
+				if v := recover(); v != nil {
+					x.code = 2
+					h.fail("panic", "GET /control/querylog?%s panicked: %v", q.encode(), v)
+				}
+			}()
+			h.l.handleQueryLog(w, rq)
+		}()
+		oldestNS := int64(0)
+		if x.code != 2 {
+			switch w.Code {
+			case 200:
+				var body struct {
+					Data []struct {
+						Time string `json:"time"`
+					} `json:"data"`
+					Oldest string `json:"oldest"`
+				}
+				if err := json.Unmarshal(w.Body.Bytes(), &body); err != nil {
+					t.Fatal(err)
+				}
+				x.oldest = body.Oldest
+				if body.Oldest != "" {
+					tm, err := time.Parse(time.RFC3339Nano, body.Oldest)
+					if err != nil {
+						t.Fatal(err)
+					}
+					oldestNS = tm.UnixNano()
+				}
+				last := int64(math.MaxInt64)
+				for _, e := range body.Data {
+					tm, err := time.Parse(time.RFC3339Nano, e.Time)
+					if err != nil {
+						t.Fatal(err)
+					}
+					ns := tm.UnixNano()
+					if ns > last {
+						h.fail("page-newest-first", "GET /control/querylog?%s: a row is newer than the row before it", q.encode())
+					}
+					last = ns
+					k := (ns - base) / step
+					if ns < base || (ns-base)%step != 0 || k >= int64(nm+nn) {
+						h.fail("unknown-entry", "GET /control/querylog?%s returned a record that is not in the file (time %s)", q.encode(), e.Time)
+						k = -1
+					}
+					x.ids = append(x.ids, int(k)+1)
+				}
+			case 400:
+				x.code = 1
+			default:
+				t.Fatalf("unexpected status %d", w.Code)
+			}
+		}
+		show := x.ids
+		if len(show) > 12 {
+			show = show[:12]
+		}
+		h.trace("GET /control/querylog?%s -> code %d, %d rows, ids %v, oldest %q", q.encode(), x.code, len(x.ids), show, x.oldest)
+		if toModel {
+			var ids []string
+			for _, id := range x.ids {
+				ids = append(ids, vfN(uint64(id)))
+			}
+			h.steps = append(h.steps, vfPair(vfPair(vfPair(q.coq(), vfZ(int64(x.code))), vfList("N", ids)), vfZ(oldestNS)))
+		}
+		return x
+	}
+	var wantRare []int
+	for k := nm; k >= 1; k-- {
+		wantRare = append(wantRare, k)
+	}
+	// 1. offset / limit paging with an explicit first offset 0
+	for _, term := range []string{"rare", "RARE"} {
+		want := wantRare
+		var got []int
+		for off := 0; off <= nm+10; off += 10 {
+			x := get(c07Query{term: term, limit: "10", offset: strconv.Itoa(off)}, true)
+			got = append(got, x.ids...)
+		}
+		h.cls["explicit-offset-zero"] = true
+		if !c07Eq(got, want) {
+			h.fail("offset-paging", "search=%s&limit=10 at offsets 0, 10, 20, ... over a file of %d matching records behind %d newer ones that do not match (scan cap %d) returned %v, want %v: offset paging does not partition the matching sequence",
+				term, nm, nn, scanCap, got, want)
+		}
+	}
+	// 2. no offset: the cap cuts the first page short; the cursors lead on
+	{
+		var got []int
+		q := c07Query{term: "rare", limit: "10"}
+		for page := 0; page < (nm+nn)/1000+10; page++ {
+			x := get(q, page == 0)
+			if x.code != 0 {
+				break
+			}
+			got = append(got, x.ids...)
+			if page == 0 && len(x.ids) < 10 && x.oldest != "" {
+				h.cls["scan-cap-cuts-first-page"] = true
+			}
+			if x.oldest == "" {
+				break
+			}
+			q.older = x.oldest
+		}
+		if !c07Eq(got, wantRare) {
+			h.fail("cursor-paging", "search=rare&limit=10 without offset, following oldest, over the same file returned %v, want %v", got, wantRare)
+		}
+	}
+	// 3. the rest of the parameter space (correspondence; no crash)
+	for _, q := range []c07Query{
+		{limit: "5", offset: "0"}, {limit: "5"}, {term: "rare", offset: "0"}, {term: "rare"}, {term: "rare", limit: "0", offset: "0"},
+		{term: "rare", limit: "2147483647", offset: "0"}, {term: "rare", limit: "2147483647", offset: "3"}, {term: "rare", limit: "7", offset: "9"},
+		{term: "rare", limit: "abc", offset: "0"}, {term: "rare", limit: "10", offset: "x"}, {term: "rare", limit: "10", offset: "-1"},
+		{term: "rare", limit: "10", offset: "2147483648"}, {older: "garbage", offset: "0"}, {term: "noise", limit: "3", offset: "50010"},
+		{status: "filtered", limit: "3", offset: "0"}, {status: "processed", limit: "3", offset: "0"},
+	} {
+		x := get(q, true)
+		if x.code == 1 {
+			h.cls["bad-request"] = true
+		}
+	}
+	if x := get(c07Query{term: "rare", limit: "2147483647", offset: "0"}, false); x.code == 0 && !c07Eq(x.ids, wantRare) {
+		h.fail("filters-exact", "search=rare&limit=2147483647&offset=0 returned %v, want %v", x.ids, wantRare)
+	}
+	h.cls["big-file-over-scan-cap"] = true
+	c := vfCase{
+		Coq: vfApp("C07.CBig", vfZ(int64(scanCap)), vfZ(int64(nm)), vfZ(int64(nn)), vfZ(base), vfZ(step),
+			vfBytes("rare"), vfBytes("noise"), vfBytes(ip), vfList("request * Z * list N * Z", h.steps)),
+		Nontrivial: true, MonitorOK: len(h.msgs) == 0, MonitorMsg: strings.Join(h.msgs, "; "), FindingKey: h.key,
+		Desc: map[string]any{"kind": "big-file", "matching": nm, "newer_non_matching": nn, "scan_cap": scanCap, "searches": h.nsearch, "trace": h.desc},
+	}
+	for k := range h.cls {
+		c.Classes = append(c.Classes, k)
+	}
+	sort.Strings(c.Classes)
+	out.Emit(c)
+}
+
 func TestVerifC07(t *testing.T) {
 	out := vfOpen(t, "C07")
 	defer out.Close()
@@ -2593,6 +2798,12 @@ func TestVerifC07(t *testing.T) {
 	}
 	if !c07Stuck {
 		c07ConcurrentAdds(t, out, vfNewRand(41))
+	}
+	// the handler's parameter space x the scan cap: a file with more lines than the cap
+	c07BigFile(t, out, vfNewRand(43), 15, 50000)
+	if out.Scale(0, 1) == 1 {
+		c07BigFile(t, out, vfNewRand(44), 23, 120003)
+		c07BigFile(t, out, vfNewRand(45), 3, 50001)
 	}
 	// round 6: lines of widely differing lengths, every record as cursor
 	for i, sc := range []string{"a6 f", "a12 f a2", "a9 f r a14 f a1", "a40 f", "a4 P f a1", "a3 P f r a5 f"} {
